@@ -415,6 +415,15 @@ func Run(in sx.Tree) sx.Tree {
 			for _, key := range order {
 				_ = w.in.k.Receive(last[key])
 			}
+		case 16:
+			// the instance is gone; a peer that has been running all along takes over: it has received every broadcast
+			// as it was sent (the very bytes, in order), not just the last one per key
+			acksBefore = 0
+			all := append([]fbcontext.Message(nil), w.log...)
+			w.newInstance()
+			for _, m := range all {
+				_ = w.in.k.Receive(m)
+			}
 		}
 		// observe
 		emits := []sx.Tree{}
